@@ -33,7 +33,7 @@ func c23(c *rig.Ctx) {
 	defer stop()
 	pc := installTxHooks(c.Seed, 400)
 	defer clearTxHooks()
-	nruns := c.Pick(36, 900)
+	nruns := c.Pick(24, 300)
 	tot := map[string]int{}
 	for i := 0; i < nruns; i++ {
 		r := c.SubRand("c23cfg", i)
@@ -58,7 +58,7 @@ func c23(c *rig.Ctx) {
 		if i < 3 {
 			c.Sample(map[string]any{"run": run.payload(), "stats": st, "merge_path_commits": mergePath, "one_tx": sampleTx(run)})
 		}
-		if c.Violations() > 20 {
+		if distinctViolationKeys() > 8 {
 			break
 		}
 	}
@@ -73,6 +73,7 @@ func c23(c *rig.Ctx) {
 	if tot["dolt_commits_checked"] == 0 {
 		c.Inconclusive("non-vacuity: no Dolt commit created inside a transaction was checked")
 	}
+	countReported(c, "c23")
 	scanOwnRaceReports(c, "C23", c23RaceFuncs)
 }
 
@@ -84,7 +85,7 @@ func analyse23(r *txRun) map[string]int {
 		for k, v := range extra {
 			wit[k] = v
 		}
-		c.Violation(key, what, wit)
+		report(c, key, what, wit)
 	}
 	type edge struct {
 		prev, val string
